@@ -66,7 +66,9 @@ def gen(rng, tier, index):
     if rng.random() < 0.4:
         opts["persistence"] = True
         if rng.random() < 0.7:
-            opts["persistence_file"] = rng.choice(["ms.json", "ms.pickle", "data/sub/net.json", "/var/lib/ms/state.pickle", "some_folder/mysensors.pickle"])
+            opts["persistence_file"] = rng.choice(["ms.json", "ms.pickle", "data/sub/net.json", "/var/lib/ms/state.pickle", "some_folder/mysensors.pickle",
+                                                    # dots elsewhere than in front of the extension (hidden / versioned directories, dotted names)
+                                                    "/home/pi/.homeassistant/mysensors.pickle", "conf.d/nodes.json", "net.v2/my.sensors.json"])
     if flavour in ("serial", "aserial"):
         if rng.random() < 0.5:
             opts["port"] = rng.choice(["/dev/ttyUSB0", "/dev/ttyACM1", "COM3"])
@@ -315,7 +317,16 @@ def run(case):
                 violations.append(_vio("option-not-honoured", {"note": "traffic of the gateway under test reached the callbacks of another gateway object",
                                                                "calls": [repr(c)[:80] for c in bystander_calls[:5]]}, option="second gateway object"))
             # ---- persistence file ---------------------------------------------------------------------
-            world.stop()
+            try:
+                world.stop()
+            except (kernel.SimAbort, kernel.Deadlock, kernel.SimKilled):
+                raise
+            except Exception as exc:  # pylint: disable=broad-except
+                # the accepted configuration makes the documented shutdown fail
+                violations.append(_vio("option-not-honoured", {"note": "stop() raised with this (accepted) configuration", "exc": repr(exc)[:300],
+                                                               "persistence_file": opts.get("persistence_file")},
+                                       option="stop() raised", exc=type(exc).__name__))
+                raise _Done()
             world.settle()
             if opts.get("persistence"):
                 path = fs.norm(pfile)
